@@ -1412,6 +1412,90 @@ fn check_analyses_any(seed: u64) -> i32 {
     0
 }
 
+/// C07 on arbitrary (nested) models: rr, bw and the ECRTS'19 analyses against naive evaluators over the models' own queries
+fn check_ros2_any(seed: u64) -> i32 {
+    use response_time_analysis::ros2;
+    let mut r = Rng(seed ^ 0x2052a27);
+    for _ in 0..500 {
+        let p = 1 + r.below(6); let q = 1 + r.below(p); let dl = q + r.below(p - q + 1);
+        let (sb, pp, qq, dd, sdesc) = supply_case(r.below(3), q, dl, p);
+        let sbf = move |t: u64| sbf_spec(pp, qq, dd, t as u128) as u64;
+        let limit = 1 + r.below(80);
+        let n = 1 + r.below(3) as usize;
+        let abs: Vec<(Box<dyn ArrivalBound>, String)> = (0..n).map(|_| mk_ab_nested(&mut r, 1)).collect();
+        let cms: Vec<(Box<dyn JobCostModel>, String)> = (0..n).map(|_| mk_cm(&mut r)).collect();
+        let kinds: Vec<Cb> = (0..n).map(|_| Cb { t: 1, j: 0, c: 1, rtb: r.below(12), kind: r.below(4) as u8, prio: r.below(3) as i32 }).collect();
+        let e = r.below(n as u64) as usize;
+        let first = r.below(n as u64) as usize;
+        let chain: Vec<usize> = if n >= 2 && first != e && r.below(2) == 0 { vec![first, e] } else { vec![e] };
+        let na = |i: usize, x: u64| abs[i].0.number_arrivals(d(x)) as u64;
+        let cost = |i: usize, k: u64| us(cms[i].0.cost_of_jobs(k as usize));
+        let npp: u64 = chain.iter().map(|&i| na(i, kinds[i].rtb)).sum();
+        let eoc = kinds[e];
+        let mut desc = format!("{{\"supply\": {}, \"limit\": {}, \"callbacks\": {:?}, \"kinds(rtb,kind,prio)\": {:?}, \"subchain\": {:?}}}", sdesc, limit,
+                           abs.iter().zip(cms.iter()).map(|(a, c)| format!("{} x {}", a.1, c.1)).collect::<Vec<_>>(), kinds.iter().map(|k| (k.rtb, k.kind, k.prio)).collect::<Vec<_>>(), chain);
+        macro_rules! cmp { ($name:expr, $got:expr, $exp:expr) => {{
+            let got = view(&guarded(|| $got)); let exp = $exp;
+            if got != Ok(exp) { return fail($name, desc.clone(), format!("{:?}", got), format!("{:?}", exp)); }
+        }}}
+        {
+            let wl: Vec<_> = (0..n).map(|i| ros2::rr::Callback::new(d(kinds[i].rtb), &abs[i].0, &cms[i].0, ros2_kind(&kinds[i]))).collect();
+            let sc: Vec<&ros2::rr::Callback<Box<dyn ArrivalBound>, Box<dyn JobCostModel>>> = chain.iter().map(|&i| &wl[i]).collect();
+            let exp = (|| {
+                let selfn = |x: u64| na(e, (x + eoc.rtb).saturating_sub(1)).saturating_sub(1);
+                let w = |x: u64| 1 + (0..n).filter(|&i| i != e).map(|i| cost(i, kinds[i].capped(&eoc, na(i, (x + kinds[i].rtb).saturating_sub(1)), npp))).sum::<u64>() + cost(e, selfn(x));
+                let s_star = scan_sbf(&sbf, 0, limit, &w)?;
+                let k = selfn(s_star);
+                Some(st_naive(&sbf, sbf(s_star).saturating_sub(1) + (cost(e, k + 1) - cost(e, k))))
+            })();
+            cmp!("ros2::rr::rta_subchain", ros2::rr::rta_subchain(&*sb, &wl, &sc, d(limit)), exp);
+        }
+        {
+            let wl: Vec<_> = (0..n).map(|i| ros2::bw::Callback::new(d(kinds[i].rtb), &abs[i].0, &cms[i].0, ros2_kind(&kinds[i]))).collect();
+            let sc: Vec<&ros2::bw::Callback<Box<dyn ArrivalBound>, Box<dyn JobCostModel>>> = chain.iter().map(|&i| &wl[i]).collect();
+            let exp = (|| {
+                let intf = |delta: u64, act: u64| (0..n).filter(|&i| i != e).map(|i| cost(i, kinds[i].capped(&eoc, na(i, delta), na(i, act) + npp))).sum::<u64>();
+                let max_offset = scan_sbf(&sbf, 0, limit, &|ta| 1 + intf(ta, ta) + cost(e, na(e, ta)))?;
+                let mut best = 0u64;
+                for a in 0..max_offset {
+                    let is_step = (0..n).any(|i| if i == e { na(i, a) != na(i, a + 1) } else { kinds[i].is_pp() && a > 0 && na(i, a - 1) != na(i, a) });
+                    if !is_step { continue; }
+                    let k = na(e, a + 1).saturating_sub(1);
+                    let s_star = scan_sbf(&sbf, 0, limit, &|x| 1 + intf(x, a) + cost(e, k))?;
+                    let f_star = st_naive(&sbf, sbf(s_star).saturating_sub(1) + (cost(e, k + 1) - cost(e, k)));
+                    best = best.max(if chain.len() == 1 { f_star.saturating_sub(a) } else { f_star });
+                }
+                Some(best)
+            })();
+            cmp!("ros2::bw::rta_subchain", ros2::bw::rta_subchain(&*sb, &wl, &sc, d(limit)), exp);
+        }
+        // ECRTS'19: request bounds over the same models
+        let rbfs: Vec<RBF<&Box<dyn ArrivalBound>, &Box<dyn JobCostModel>>> = (0..n).map(|i| RBF::new(&abs[i].0, &cms[i].0)).collect();
+        let (own, rest) = rbfs.split_last().unwrap();
+        let b = r.below(4);
+        let sn = |v: &[RBF<&Box<dyn ArrivalBound>, &Box<dyn JobCostModel>>], x: u64| v.iter().map(|rb| us(rb.service_needed(d(x)))).sum::<u64>();
+        let own_f = |x: u64| us(own.service_needed(d(x)));
+        let lw_own = |x: u64| us(own.least_wcet_in_interval(d(x)));
+        let ecrts = |dem: &dyn Fn(u64) -> u64, wb: &dyn Fn(u64) -> u64, w2: &dyn Fn(u64, u64) -> u64| -> Option<u64> {
+            let max_bw = scan_sbf(&sbf, 0, limit, wb)?;
+            let mut best = 0u64;
+            for a in 0..=max_bw { if !(dem(a) < dem(a + 1)) { continue; } best = best.max(scan_sbf(&sbf, a, limit, &|x| w2(a, x))?); }
+            Some(best)
+        };
+        let intf_iv = |a: u64, resp: u64| { let w = lw_own(a + resp); if resp > w { a + resp - w + 1 } else { a + 1 } };
+        desc = format!("{{\"supply\": {}, \"limit\": {}, \"tasks (the last one is under analysis)\": {:?}, \"blocking\": {}}}", sdesc, limit,
+                           abs.iter().zip(cms.iter()).map(|(a, c)| format!("{} x {}", a.1, c.1)).collect::<Vec<_>>(), b);
+        cmp!("ros2::rta_event_source", ros2::rta_event_source(&*sb, &demand::Slice::of(&rbfs), d(limit)), ecrts(&|x| sn(&rbfs, x), &|x| sn(&rbfs, x), &|a, _| sn(&rbfs, a + 1)));
+        cmp!("ros2::rta_timer", ros2::rta_timer(&*sb, own, &demand::Slice::of(rest), s(b), d(limit)),
+             ecrts(&own_f, &|x| own_f(x) + b + sn(rest, x), &|a, x| own_f(a + 1) + sn(rest, intf_iv(a, x)) + b));
+        cmp!("ros2::rta_polling_point_callback", ros2::rta_polling_point_callback(&*sb, own, &demand::Slice::of(rest), d(limit)),
+             ecrts(&own_f, &|x| own_f(x) + sn(rest, x), &|a, x| own_f(a + 1) + sn(rest, intf_iv(a, x))));
+        cmp!("ros2::rta_processing_chain", ros2::rta_processing_chain(&*sb, own, &demand::Slice::of(rest), &demand::Slice::of(&rbfs), &demand::Slice::of(&rest[..0]), d(limit)),
+             ecrts(&|x| sn(&rbfs, x), &|x| sn(&rbfs, x), &|a, x| own_f(a + 1) + sn(rest, intf_iv(a, x))));
+    }
+    0
+}
+
 pub fn search(obligation: &str, seed: u64) -> i32 {
     let o = obligation;
     let mut ran = false;
@@ -1419,7 +1503,7 @@ pub fn search(obligation: &str, seed: u64) -> i32 {
     let mut rc = 0;
     if let Some(cat) = o.strip_prefix("cat:") {
         rc = match cat { "supply" => run(check_supply), "fixed_point" => run(check_fixed_point), "arrival" => run(check_arrival), "steps" => run(check_steps),
-                         "wcet_demand" => run(check_wcet_demand), "analyses" => { let rc = run(check_analyses); if rc == 0 { run(check_analyses_tab) } else { rc } }, "ros2" => { let rc = run(check_ros2); if rc == 0 { run(check_ros2_tab) } else { rc } }, "ros2_all_scalar" => run(check_ros2_all_scalar), "ros2_bw_all" => run(check_ros2_bw_all), "ros2_mono" => run(check_ros2_mono), "coincide" => run(check_coincide), "totality" => run(check_totality), "queries" => run(check_queries), "cache" => run(check_cache), "analyses_any" => run(check_analyses_any), "ros2_all_multiframe" => run(check_ros2_all_multiframe), _ => 3 };
+                         "wcet_demand" => run(check_wcet_demand), "analyses" => { let rc = run(check_analyses); if rc == 0 { run(check_analyses_tab) } else { rc } }, "ros2" => { let rc = run(check_ros2); if rc == 0 { run(check_ros2_tab) } else { rc } }, "ros2_all_scalar" => run(check_ros2_all_scalar), "ros2_bw_all" => run(check_ros2_bw_all), "ros2_mono" => run(check_ros2_mono), "coincide" => run(check_coincide), "totality" => run(check_totality), "queries" => run(check_queries), "cache" => run(check_cache), "analyses_any" => run(check_analyses_any), "ros2_any" => run(check_ros2_any), "ros2_all_multiframe" => run(check_ros2_all_multiframe), _ => 3 };
     }
     else if o.contains("src/arrival/steps") || o.contains("src/arrival/dmin") || o.contains("arrival_curve_prefix") { rc = run(check_steps); }
     else if o.contains("src/supply/") { rc = run(check_supply); if rc == 0 { rc = run(check_fixed_point); } }
